@@ -409,7 +409,7 @@ class SpecValueCheck(_Check):
         self.oracle(x)
 
     def sample(self, x, **extra):
-        if x.rec.evaluations % 101 == 0:
+        if len(x.rec.samples) < 2 or x.rec.evaluations % 101 == 0:
             s = {'codec': x.codec, 'numeric_enums': x.ne, 'type': x.name,
                  'module_text': x.spec.text(), 'value': jsonio.enc(x.v)}
             s.update(extra)
